@@ -113,7 +113,8 @@ def run(ref, tier='quick', props=None):
             code, out = sh(env + 'timeout 3000 ./check %s %s' % (prop, tier), cwd=VERIF, timeout=3100)
             lines = [l for l in out.splitlines() if l.startswith(('VIOLATION', 'KNOWN-FINDING', 'MACHINERY'))]
             detail = [l for l in out.splitlines() if l.strip() and not l.startswith(('VIOLATION', '/repo', '  _DEFAULT'))][-12:]
-            results[prop] = {'exit': code, 'caught': code == 1 and any(l.startswith('VIOLATION') for l in lines), 'lines': lines[:6],
+            key = prop + ('@seed' + os.environ['VERIF_SEED'] if os.environ.get('VERIF_SEED') else '')
+            results[key] = {'exit': code, 'caught': code == 1 and any(l.startswith('VIOLATION') for l in lines), 'lines': lines[:6],
                              'detail': detail, 'seconds': round(time.time() - t, 1), 'tier': tier}
     finally:
         sh('git -C %s checkout -- .' % repo)
